@@ -6,7 +6,7 @@ import ast
 import z3
 
 from pyvc import specz3
-from pyvc.sym import (I, B, A, A2, iv, add, sub, lit, fresh, fresh_seq, Seq, Tup, Mat, Row, Obj, FloatV, NONE, NoneV, const_str, const_list)
+from pyvc.sym import (I, B, A, A2, iv, add, sub, lit, fresh, fresh_seq, Seq, Tup, Mat, Row, Obj, FloatV, NONE, NoneV, const_str, const_list, MaskV)
 
 
 def U(msg):
@@ -55,8 +55,34 @@ def astype(ex, e, st, base):
     raise U("astype")
 
 
+VERDICT = z3.Function("filter_accepts", I, I, I, B)      # verdict of an abstract filter on the k-mer (length k, base-4 value i)
+
+
 def obj_method(ex, e, st, base, attr):
+    if base.cls == "AbstractFilter" and attr == "valid":
+        return abstract_valid(ex, e, st, base)
     raise U(f"method {attr} of {base.cls}")
+
+
+def abstract_valid(ex, e, st, base):
+    """bio_filter.valid(x) on a user-defined filter: only the DOCUMENTED interface DefaultBioFilter.valid(self, dna_string) is known.
+    The call must bind to that signature (C11 interface-conformance obligation); the verdict on an A/C/G/T string is an unknown but
+    fixed function of the string, i.e. of (length, base-4 value)."""
+    sig = ex.registry.function_ast("dsw.biofilter.DefaultBioFilter.valid")
+    pnames = [a.arg for a in sig.args.args][1:]
+    ok = len(e.args) + len(e.keywords) == 1 and all(k.arg in pnames for k in e.keywords)
+    ex.prove(st, f"call:valid:binds-to-interface:{ex.ordinal('iface')}", z3.BoolVal(ok), e.lineno)
+    if not ok:
+        ex.fatal = True
+        raise U("call of bio_filter.valid does not bind to the documented signature valid(self, %s)" % ", ".join(pnames))
+    x = ex.ev(e.args[0] if e.args else e.keywords[0].value, st)
+    if not (isinstance(x, Seq) and x.elem == "char"):
+        raise U("filter verdict on a non-string")
+    from pyvc import speclang
+    dna = x.forall(lambda v: z3.Or(v == 65, v == 67, v == 71, v == 84))
+    ex.prove(st, f"call:valid:argument-is-a-kmer:{ex.ordinal('iface')}", dna, e.lineno)
+    cs = speclang.codes_seq(ex, x)
+    return VERDICT(base.fields["__id__"], x.n, specz3.seq_pv(cs, iv(0), cs.n, 4))
 
 
 def shape_of(ex, e, st):
@@ -101,3 +127,79 @@ def np_zeros(ex, e, st):
 @lib("ones")
 def np_ones(ex, e, st):
     return filled(ex, e, st, 1, "ones")
+
+
+@lib("sum")
+def np_sum(ex, e, st):
+    """numpy.sum of a 1-D int/bool array = ssum(array) (mathematical integer: no int64 overflow assumed)."""
+    ex.trusted_used.add("numpy.sum(1-D array) = sum of its entries (no int64 overflow)")
+    v = ex.ev(e.args[0], st)
+    if isinstance(v, tuple) and v[0] == "mapped":
+        v = v[1]
+    if not isinstance(v, Seq) or e.keywords or len(e.args) != 1:
+        raise U("sum of this value")
+    k = lit(v.n)
+    if k is not None and k <= 8:
+        tot = iv(0)
+        for q in range(k):
+            tot = add(tot, v.at(q)) if q == 0 else tot + v.at(q)
+        return tot
+    return specz3.ssum(v.arr, iv(v.delta), v.start, add(v.start, v.n))
+
+
+def where_indices(ex, st, m, line):
+    """numpy.where(mask)[0]: the positions where the mask holds, strictly increasing.  For a literal length <= 4 the result is
+    given exactly (closed form); otherwise by the universal facts: in range, mask holds at each, strictly increasing, and the mask is
+    false before the first, between consecutive and after the last entry."""
+    ex.trusted_used.add("numpy.where(mask)[0]: strictly increasing positions where the mask holds, none missing")
+    k = lit(m.n)
+    if k is not None and k <= 4:
+        conds = [m.cond(j) for j in range(k)]
+        cnt = iv(0)
+        for c in conds:
+            cnt = cnt + z3.If(c, 1, 0)
+        out = fresh_seq("where", "nd", "int", n=z3.simplify(cnt), dtype="int")
+        rank = iv(0)
+        for j in range(k):
+            st.assume(z3.Implies(conds[j], out.arr[rank] == j))
+            rank = rank + z3.If(conds[j], 1, 0)
+        out.live_of = m
+        return out
+    out = fresh_seq("where", "nd", "int", dtype="int")
+    st.assume(z3.And(out.n >= 0, out.n <= m.n))
+    i, p = fresh("q"), fresh("p")
+    a = out.arr
+    st.assume(z3.ForAll([i], z3.Implies(z3.And(0 <= i, i < out.n), z3.And(a[i] >= 0, a[i] < m.n, m.cond(a[i]))), patterns=[a[i]]))
+    i2 = fresh("q")
+    st.assume(z3.ForAll([i2], z3.Implies(z3.And(0 <= i2, i2 + 1 < out.n), a[i2] < a[i2 + 1]), patterns=[a[i2]]))
+    # no position is missing: false before the first, between neighbours, after the last
+    i3, p3 = fresh("q"), fresh("p")
+    base_arr = m.seq.arr
+    st.assume(z3.ForAll([i3, p3], z3.Implies(z3.And(0 <= i3, i3 + 1 < out.n, a[i3] < p3, p3 < a[i3 + 1]), z3.Not(m.cond(p3))),
+                        patterns=[z3.MultiPattern(a[i3], base_arr[add(m.seq.start, p3)])]))
+    p4 = fresh("p")
+    st.assume(z3.ForAll([p4], z3.Implies(z3.And(0 <= p4, p4 < m.n, z3.Or(out.n == 0, p4 < a[0], p4 > a[out.n - 1])), z3.Not(m.cond(p4))),
+                        patterns=[base_arr[add(m.seq.start, p4)]]))
+    return out
+
+
+@lib("where")
+def np_where(ex, e, st):
+    v = ex.ev(e.args[0], st)
+    if not isinstance(v, MaskV):
+        raise U("where() of something that is not <array> <op> <scalar>")
+    return Tup([where_indices(ex, st, v, e.lineno)])
+
+
+def mask_select(ex, st, base, m, line):
+    """a[mask] (boolean-mask indexing, a copy): the entries at the positions where the mask holds, in order."""
+    if m.seq is not base and not (m.seq.arr.eq(base.arr) and m.seq.start.eq(base.start)):
+        raise U("boolean mask over a different array")
+    idx = where_indices(ex, st, m, line)
+    k = lit(base.n)
+    if k is None or k > 4:
+        raise U("boolean-mask indexing of a long array")
+    out = fresh_seq("sel", "nd", "int", n=idx.n, dtype=base.dtype)
+    for j in range(k):
+        st.assume(z3.Implies(j < idx.n, out.arr[j] == base.at(idx.arr[j])))
+    return out
